@@ -35,7 +35,7 @@ theorem checkedInsertAfter_mid {A B : List HTree} {x : HTree}
       (g.withRoots (R ++ [.node c vc (A ++ [x, .node n v []] ++ B)]), true) := by
   have hxK : x.handle ∈ handlesList (A ++ x :: B) := by
     rw [handlesList_append]
-    simp [handlesList, handle_mem_handles]
+    simp [handlesList, fc_handle_mem_handles]
   have hxR := w.kR hxK
   have hxc := w.kc hxK
   have hxn := w.kn hxK
@@ -43,13 +43,13 @@ theorem checkedInsertAfter_mid {A B : List HTree} {x : HTree}
     have hnd := w.nodupK
     rw [handlesList_append] at hnd
     intro hm
-    exact (List.nodup_append.mp hnd).2.2 _ hm _ (by simp [handlesList, handle_mem_handles]) rfl
+    exact (List.nodup_append.mp hnd).2.2 _ hm _ (by simp [handlesList, fc_handle_mem_handles]) rfl
   have hanc : g.ancestors x.handle = [x.handle, c] := by
     unfold Forest.ancestors
     rw [w.roots, List.findSome?_append, findSome?_ancestorsOf_none _ R hxR]
-    simp only [plug]
+    simp only [fcPlug]
     rw [List.findSome?_cons, ancestorsOf_node_ne _ _ (Ne.symm hxc),
-      ancestorsOfList_append_of_not_mem _ _ _ hxA]
+      fc_ancestorsOfList_append_of_not_mem _ _ _ hxA]
     have : ancestorsOf x.handle x = some [x.handle] := by
       cases x with
       | node hx vx kx => simp [ancestorsOf, HTree.handle]
@@ -58,7 +58,7 @@ theorem checkedInsertAfter_mid {A B : List HTree} {x : HTree}
     unfold Forest.isRoot
     rw [w.roots]
     have h2 : (HTree.node n v []).handle = n := rfl
-    have h3 : (plug [] (.node c vc (A ++ x :: B))).handle = c := rfl
+    have h3 : (fcPlug [] (.node c vc (A ++ x :: B))).handle = c := rfl
     simp only [List.any_append, any_handle_eq_false_of_not_mem _ R hxR, List.any_cons, h2, h3,
       List.any_nil, Bool.or_false, Bool.false_or, Ne.symm hxc, Ne.symm hxn, decide_false]
   unfold Forest.checkedInsertAfter
@@ -68,7 +68,7 @@ theorem checkedInsertAfter_mid {A B : List HTree} {x : HTree}
     simp [Ne.symm hxn, w.nc]
   simp only [h1, if_false, hcont, hroot, Bool.or_false, Bool.false_eq_true, w.cut_n]
   unfold Forest.placeAfter
-  simp only [Forest.withRoots_roots, List.map_append, List.map_cons, List.map_nil, plug]
+  simp only [Forest.withRoots_roots, List.map_append, List.map_cons, List.map_nil, fcPlug]
   rw [map_replaceBelow_of_not_mem _ _ R hxR]
   have : replaceBelow x.handle (fun r => [r, .node n v []]) (.node c vc (A ++ x :: B)) =
       .node c vc (A ++ [x, .node n v []] ++ B) := by
@@ -154,7 +154,7 @@ theorem mapInsert_ns_spec {g : Forest} {R : List HTree} {c : Nat} {vc : Value} {
     rcases List.eq_nil_or_concat Kn with rfl | ⟨Kn', x, rfl⟩
     · simp only [List.getLast?_nil, Option.map_none]
       rw [w.checkedPrepend_fresh]
-      simp [plug, hsplit]
+      simp [fcPlug, hsplit]
     · rw [List.concat_eq_append] at hsplit ⊢
       simp only [List.getLast?_concat, Option.map_some]
       have w' : Work (g.newNode (.namespace p ns)).1 R [] c vc (Kn' ++ x :: Kr) g.next (.namespace p ns) := by
